@@ -213,6 +213,28 @@ func init() {
 	ext("fmt.Println", func(fr *frame, args []value) value { return tuple{0, iface{}} })
 	ext("fmt.Print", func(fr *frame, args []value) value { return tuple{0, iface{}} })
 
+	// ---- strconv: rendering a symbolic number gives a placeholder (text is outside every claim) ----
+	symNum := func(ret func(args []value) value) externalFn {
+		return func(fr *frame, args []value) value {
+			for _, a := range args {
+				if isSym(a) {
+					return ret(args)
+				}
+			}
+			return extFallthrough
+		}
+	}
+	str := func(args []value) value { return "<symnum>" }
+	app := func(args []value) value {
+		return append(args[0].([]value), []value{byte('<'), byte('n'), byte('>')}...)
+	}
+	for _, n := range []string{"strconv.FormatInt", "strconv.Itoa", "strconv.FormatUint", "strconv.FormatFloat", "strconv.FormatBool"} {
+		ext(n, symNum(str))
+	}
+	for _, n := range []string{"strconv.AppendInt", "strconv.AppendUint", "strconv.AppendFloat"} {
+		ext(n, symNum(app))
+	}
+
 	// ---- time ----
 	ext("time.Now", func(fr *frame, args []value) value {
 		if eng == nil || !eng.nowSet {
@@ -292,6 +314,12 @@ func init() {
 }
 
 const addTok = token.ADD
+
+// extFallthrough is returned by an external that declines the call: the
+// function is then interpreted from its source.
+type extFallthroughT struct{}
+
+var extFallthrough = &extFallthroughT{}
 
 func errorIface() *types.Interface {
 	return types.Universe.Lookup("error").Type().Underlying().(*types.Interface)
